@@ -361,13 +361,14 @@ fn c16_timestamp_value() {
 //@prop C16
 //@tier quick
 //@timeout 600
-//@doc as c16_timestamp_value for every fraction 0..=999_999_999 ns: the number %s prints is the Unix time of the civil second that the same value's %S (and %Y-%m-%d %H:%M) print, i.e. floor(instant) -- "seconds since the Epoch" of the broken-down fields, as mktime()/strftime define it.  On jiff 0.2.8 this FAILS for instants before 1970 with a non-zero fraction: Timestamp::as_second truncates toward zero, so 1969-12-31T23:59:59.5Z formats with "%s|%S" as "0|59" (expected "-1|59") and strptime("%s") of the output yields 1970-01-01T00:00:00Z
+//@doc as c16_timestamp_value for every fraction 0..=999_999_999 ns: the number %s prints is the Unix time of the civil second that the same value's %S (and %Y-%m-%d %H:%M) print, i.e. floor(instant) = as_second() - [subsec < 0] -- "seconds since the Epoch" of the broken-down fields, as mktime()/strftime define it (jiff 0.2.8 printed as_second(), which truncates toward zero: 1969-12-31T23:59:59.5Z gave "0|59"; fixed in /repo bbd1f70)
 #[kani::proof]
 #[kani::stub(IDate::to_epoch_day, memo_to_epoch_day)]
 #[kani::unwind(6)]
 fn c16_timestamp_fraction_floor() {
     let (tm, want) = any_zoned_fields(false);
-    if let Ok(ts) = tm.to_timestamp() { assert!(ts.as_second() == want); }
+    // floor(instant): the whole seconds at or before it (what fmt_timestamp prints: see c16_fmt_timestamp_print)
+    if let Ok(ts) = tm.to_timestamp() { assert!(ts.as_second() - (if ts.subsec_nanosecond() < 0 { 1 } else { 0 }) == want); }
 }
 
 /// the plain rendering of v (|v| < 10^13): ['-'] ++ the decimal digits of |v|, nothing else.  The digits are stated by their
@@ -394,8 +395,11 @@ fn stub_to_timestamp(_tm: &BrokenDownTime) -> Result<Timestamp, Error> {
     if kani::any() {
         let s: i64 = kani::any();
         kani::assume(-377705023201 <= s && s <= 253402207200);
-        unsafe { STUB_SECOND = s; }
-        Ok(Timestamp::from_second(s).unwrap())
+        // any sub-second part of the sign of s (Timestamp's invariant); the printed value is the floor
+        let n: i32 = kani::any();
+        kani::assume(-999_999_999 <= n && n <= 999_999_999 && !(s > 0 && n < 0) && !(s < 0 && n > 0) && !(s == -377705023201 && n < 0));
+        unsafe { STUB_SECOND = if n < 0 { s - 1 } else { s }; }
+        Ok(Timestamp::from_itimestamp_const(crate::shared::util::itime::ITimestamp { second: s, nanosecond: n }))
     } else {
         Err(err!("stub"))
     }
@@ -406,7 +410,7 @@ fn stub_to_timestamp(_tm: &BrokenDownTime) -> Result<Timestamp, Error> {
 //@prop C16
 //@tier thorough
 //@timeout 2400
-//@doc glue + printing, callee BrokenDownTime::to_timestamp replaced by a nondeterministic stub (any Timestamp second in -377705023201..=253402207200, or Err; its value is c16_timestamp_value): %s is Err exactly when to_timestamp is, otherwise it prints as_second() as a plain decimal: '-' for negative values, no padding, no leading zeros, for EVERY second in the Timestamp range
+//@doc glue + printing, callee BrokenDownTime::to_timestamp replaced by a nondeterministic stub (any Timestamp second in -377705023201..=253402207200, or Err; its value is c16_timestamp_value): %s is Err exactly when to_timestamp is, otherwise it prints floor(instant) = as_second() - [subsec < 0] as a plain decimal: '-' for negative values, no padding, no leading zeros, for EVERY second in the Timestamp range
 #[kani::proof]
 #[kani::stub(BrokenDownTime::to_timestamp, stub_to_timestamp)]
 #[kani::unwind(15)]
